@@ -5,6 +5,7 @@ import (
 	"bytes"
 	"context"
 	"encoding/hex"
+	"encoding/json"
 	"fmt"
 	"io"
 	"log"
@@ -215,10 +216,25 @@ type node struct {
 	entries [][]byte
 	buf     []byte
 	dead    bool
+	// clusterpar: several connections, proposals kept pending and committed as one batch
+	par    bool
+	clis   []net.Conn
+	roundC chan<- int
 }
 
-func newNode(cfg *config.Config, cluster bool) *node {
-	n := &node{mgr: server.NewManager(cfg), cluster: cluster}
+const parConns = 4
+
+func newNode(cfg *config.Config, cluster bool, par bool) *node {
+	n := &node{mgr: server.NewManager(cfg), cluster: cluster || par, par: par}
+	tap := func(b []byte) {
+		n.mu.Lock()
+		n.entries = append(n.entries, append([]byte{}, b...))
+		n.mu.Unlock()
+	}
+	if par {
+		n.clis, n.roundC, n.stop = server.VerifClusterLoopbackMulti(n.mgr, parConns, tap)
+		return n
+	}
 	if cluster {
 		n.cli, n.stop = server.VerifClusterLoopback(n.mgr, func(b []byte) {
 			n.mu.Lock()
@@ -292,6 +308,61 @@ func (n *node) exec(cmd [][]byte) (wire []byte, status string) {
 	}
 }
 
+type parCmd struct {
+	conn int
+	cmd  [][]byte
+	hex  []string
+	step int
+}
+
+// execRound sends one command on each of several connections, lets the loop-back take all the
+// proposals before any of them is committed, then collects the replies.
+func (n *node) execRound(round []parCmd) (wires [][]byte, status []string) {
+	wires = make([][]byte, len(round))
+	status = make([]string, len(round))
+	type result struct {
+		i    int
+		wire []byte
+	}
+	done := make(chan result, len(round))
+	for i, pc := range round {
+		go func(i int, pc parCmd) {
+			cli := n.clis[pc.conn]
+			if _, err := cli.Write(respRequest(pc.cmd)); err != nil {
+				done <- result{i, []byte("!WRITE " + err.Error())}
+				return
+			}
+			buf := make([]byte, 1<<20)
+			k, err := cli.Read(buf)
+			if err != nil {
+				done <- result{i, []byte("!READ " + err.Error())}
+				return
+			}
+			done <- result{i, buf[:k]}
+		}(i, pc)
+	}
+	watchdog := time.After(60 * time.Second)
+	select {
+	case n.roundC <- len(round):
+	case <-watchdog:
+		n.dead = true
+	}
+	for got := 0; got < len(round) && !n.dead; got++ {
+		select {
+		case r := <-done:
+			wires[r.i] = r.wire
+		case <-watchdog:
+			n.dead = true
+		}
+	}
+	for i := range round {
+		if wires[i] == nil {
+			status[i] = "!HANG"
+		}
+	}
+	return wires, status
+}
+
 func (n *node) drainEntries() [][]byte {
 	n.mu.Lock()
 	defer n.mu.Unlock()
@@ -308,7 +379,8 @@ func c14RunCmd(args []string) error {
 	if len(args) != 4 {
 		return fmt.Errorf("c14run <standalone|cluster> <prog> <out> <scratch>")
 	}
-	cluster := args[0] == "cluster"
+	cluster := args[0] == "cluster" || args[0] == "clusterpar"
+	par := args[0] == "clusterpar"
 	f, err := os.Open(args[1])
 	if err != nil {
 		return err
@@ -337,6 +409,67 @@ func c14RunCmd(args []string) error {
 	var nd *node
 	caseName := ""
 	step := 0
+	// clusterpar: consecutive C lines on distinct connections form one round
+	var round []parCmd
+	flushRound := func() {
+		if len(round) == 0 {
+			return
+		}
+		w.Flush()
+		progress.Truncate(0)
+		progress.Seek(0, 0)
+		fmt.Fprintf(progress, "%s %d\n", caseName, round[0].step)
+		now := time.Now()
+		var wires [][]byte
+		status := make([]string, len(round))
+		if nd.dead {
+			wires = make([][]byte, len(round))
+			for i := range status {
+				status[i] = "!SKIP"
+			}
+		} else {
+			wires, status = nd.execRound(round)
+		}
+		for i, pc := range round {
+			name := ""
+			if len(pc.cmd) > 0 {
+				name = strings.ToLower(string(pc.cmd[0]))
+			}
+			out := status[i]
+			if out == "" {
+				out = canonForCmd(name, canonFromWire(wires[i]))
+			}
+			fmt.Fprintf(w, "S %d %d %d %s | %s\n", now.Unix(), now.UnixMilli(), pc.conn, strings.Join(pc.hex, " "), out)
+			fmt.Fprintf(ww, "W %s %d %s %s\n", caseName, pc.step, hx([]byte(name)), hx(wires[i]))
+		}
+		// every payload handed to publishEntries must be the encoding of one of the round's commands
+		left := append([]parCmd{}, round...)
+		for _, e := range nd.drainEntries() {
+			var back struct {
+				Data [][]byte
+				ID   string
+			}
+			k := -1
+			if json.Unmarshal(e, &back) == nil {
+				for j, pc := range left {
+					if sameArgs(pc.cmd, back.Data) {
+						k = j
+						break
+					}
+				}
+			}
+			if k < 0 {
+				if len(left) == 0 {
+					fmt.Fprintf(we, "P %s %d 21554e4d415443484544 | %s\n", caseName, round[0].step, hx(e))
+					continue
+				}
+				k = 0
+			}
+			fmt.Fprintf(we, "P %s %d %s | %s\n", caseName, left[k].step, strings.Join(left[k].hex, " "), hx(e))
+			left = append(left[:k], left[k+1:]...)
+		}
+		round = round[:0]
+	}
 	for sc.Scan() {
 		fs := strings.Fields(sc.Text())
 		if len(fs) == 0 {
@@ -348,7 +481,8 @@ func c14RunCmd(args []string) error {
 				nd.close()
 			}
 			dbs, _ := strconv.Atoi(fs[2])
-			nd = newNode(setupServer(dbs, args[3]), cluster)
+			flushRound()
+			nd = newNode(setupServer(dbs, args[3]), cluster, par)
 			caseName, step = fs[1], 0
 			fmt.Fprintf(w, "CASE %s %d\n", fs[1], dbs)
 			progress.Truncate(0)
@@ -364,6 +498,18 @@ func c14RunCmd(args []string) error {
 				cmd = append(cmd, unhx(h))
 			}
 			step++
+			if par {
+				c, _ := strconv.Atoi(fs[1])
+				c %= parConns
+				for _, pc := range round {
+					if pc.conn == c {
+						flushRound()
+						break
+					}
+				}
+				round = append(round, parCmd{conn: c, cmd: cmd, hex: fs[3:], step: step})
+				continue
+			}
 			// every intermediate result is on disk before a step that may kill the process
 			w.Flush()
 			progress.Truncate(0)
@@ -390,6 +536,7 @@ func c14RunCmd(args []string) error {
 				}
 			}
 		case "DUMP":
+			flushRound()
 			if nd.dead {
 				continue
 			}
@@ -401,6 +548,7 @@ func c14RunCmd(args []string) error {
 			}
 			fmt.Fprintf(w, "DEND %d\n", now)
 		case "END":
+			flushRound()
 			fmt.Fprintf(w, "END\n")
 		}
 	}
@@ -408,6 +556,18 @@ func c14RunCmd(args []string) error {
 		nd.close()
 	}
 	return nil
+}
+
+func sameArgs(a, b [][]byte) bool {
+	if len(a) != len(b) {
+		return false
+	}
+	for i := range a {
+		if !bytes.Equal(a[i], b[i]) {
+			return false
+		}
+	}
+	return true
 }
 
 var _ = resp.MakeErrorData
